@@ -838,7 +838,7 @@ def run(ctx, res):
             describe(res, case, cands)
         # ---- random cases
         rng = ctx.subrng("c06")
-        n_cases = ctx.scale(260, 1300, 800)
+        n_cases = ctx.scale(260, 1000, 800)
         for t in range(n_cases):
             raw = gen_case(rng, max_plates=7, n_max=14 if ctx.tier == "quick" else 22)
             case = make_case(rng, raw, t, ctx.tier if ctx.mode == "check" else "quick", 3 if ctx.tier == "quick" else 5,
